@@ -201,6 +201,7 @@ Definition run_cmd (name : bytes) (args : list bytes) : bytes :=
   else if bytes_eqb name (str "acc") then match args with [s] => cmd_acc s | _ => str "bad-args" end
   else if bytes_eqb name (str "val") then match args with [s] => cmd_val s | _ => str "bad-args" end
   else if bytes_eqb name (str "docv") then match args with [s] => Cmd_front.cmd_docv_front s | _ => str "bad-args" end
+  else if bytes_eqb name (str "accv") then match args with [s] => Cmd_front.cmd_accv_front s | _ => str "bad-args" end
   else if bytes_eqb name (str "rt") then match args with [s] => cmd_rt s | _ => str "bad-args" end
   else if bytes_eqb name (str "depth") then match args with [s] => cmd_depth s | _ => str "bad-args" end
   else if bytes_eqb name (str "fuzz") then match args with [s] => cmd_fuzz s | _ => str "bad-args" end
